@@ -295,7 +295,7 @@ PROPS["C14"] = {
     "level_note": "Operand-type error = message contains one of: wrong type, not boolean, not string, not number, parameter type, not list/List/JSON, "
                   "require number/string type, Cannot find function, arguments but got. JSON field access is excluded from the acceptance leg as the "
                   "property says. The acceptance leg only asserts acceptance for the sub-language of DESIGN.md §2.2."
-                  " Later widening: leg TestC14Matrix runs every operator over every pair of operand forms of every static type (15 forms, as select field and as WHERE): whatever the verdict, it must come at plan build - rejected with zero storage calls, or accepted and never failing with an operand-type error; raw-text forms for shapes the AST cannot express (faults in a second subscript, key in a put key, aggregates in aggregate arguments / GROUP BY / WHERE) and for shapes that must be accepted (Boolean literals under and/or, ! under comparisons, a Boolean name as the whole WHERE); half of the mutant hosts use the wider language (JSON cascades).",
+                  " Later widening: leg TestC14Matrix runs every operator over every pair of operand forms of every static type (15 forms, as select field, as WHERE and as a field beside count(1) .. group by key): whatever the verdict, it must come at plan build - rejected with zero storage calls, or accepted and never failing with an operand-type error; raw-text forms for shapes the AST cannot express (faults in a second subscript, key in a put key, aggregates in aggregate arguments / GROUP BY / WHERE) and for shapes that must be accepted (Boolean literals under and/or, ! under comparisons, a Boolean name as the whole WHERE); half of the mutant hosts use the wider language (JSON cascades).",
     "rule": "deterministic fault x position grid (each cell once) + rapid mutants + rapid well-typed statements. Non-trivial = a mutant whose fault is "
             "not at the root of WHERE / a select field / a PUT or REMOVE operand, a grid cell, or a well-typed statement with at least two operators; "
             "distinct = distinct statements.",
